@@ -13,23 +13,37 @@ CONSTANTS
   MaxChunks,    \* chunks the peer sends at most
   MaxDepth,
   MinCloseDepth, \* Close is offered from this depth on (long random behaviours)
+  Script,       \* steps executed first, e.g. <<<<"Submit", TRUE>>, <<"Poll">>>>; then the free interleavings
+  AllStale,     \* TRUE: chunks for every request id that is no longer pending; FALSE: only for the latest such id
   ForceClose    \* the last step of a behaviour closes the transport if it is still open
 
 VARIABLES depth
 
 DInit == Init /\ depth = 0
 
+NotPending == (1..nextId) \ DOMAIN pending
+Targets == DOMAIN pending \cup {UnknownId}
+           \cup (IF AllStale \/ NotPending = {} THEN NotPending ELSE {CHOOSE id \in NotPending : \A x \in NotPending : x <= id})
+
 Free ==
   \/ \E cb \in CBs : Cardinality(DOMAIN subm) < NReq /\ Submit(Cardinality(DOMAIN subm) + 1, cb)
   \/ Poll
-  \/ \E id \in (1..nextId) \cup {UnknownId}, k \in Kinds : nextSeq <= MaxChunks /\ Chunk(id, k)
+  \/ \E id \in Targets, k \in Kinds : nextSeq <= MaxChunks /\ Chunk(id, k)
   \/ \E id \in DOMAIN pending : Expire(id)
   \/ \E s \in CloseStats : depth >= MinCloseDepth /\ Close(s)
+
+SetupStep ==
+  LET s == Script[depth + 1] IN
+  CASE s[1] = "Submit" -> Submit(Cardinality(DOMAIN subm) + 1, s[2])
+    [] s[1] = "Poll" -> Poll
+    [] s[1] = "Chunk" -> Chunk(s[2], s[3])
+    [] s[1] = "Expire" -> Expire(s[2])
 
 DNext ==
   /\ depth < MaxDepth
   /\ depth' = depth + 1
-  /\ IF ForceClose /\ depth = MaxDepth - 1 /\ closed = "none" THEN Close("Good") ELSE Free
+  /\ IF depth < Len(Script) THEN SetupStep
+     ELSE IF ForceClose /\ depth = MaxDepth - 1 /\ closed = "none" THEN Close("Good") ELSE Free
 
 \* a behaviour is complete at the depth bound, or when nothing can happen any more (closed, every request submitted)
 Done == depth = MaxDepth \/ (closed # "none" /\ Cardinality(DOMAIN subm) = NReq)
